@@ -15,6 +15,15 @@ def call(case, api='func'):
     from bycycle.features import compute_features
     kw = {k: copy.deepcopy(case[k]) for k in OPT_KEYS if k in case}
     sig = np.array(case['sig'], copy=True)
+    view = case.get('sig_view')
+    if view == 'strided':
+        # the same samples as a non-contiguous view of a larger buffer (e.g. one channel of an interleaved recording)
+        buf = np.empty(2 * len(sig), dtype=sig.dtype)
+        buf[::2] = sig
+        buf[1::2] = 12345
+        sig = buf[::2]
+    elif view == 'readonly':
+        sig.flags.writeable = False
     try:
         with quiet():
             if api == 'func':
